@@ -51,7 +51,7 @@ ASSUMPTIONS = ['"major number" is the first number of the release segment (epoch
                'suffix spellings other than (a|alpha|b|beta|rc)<digits>, components above 999, signs, blanks, '
                'leading zeros, empty components and non-ASCII digits are DONT-CARE (only: no exception other than '
                'ValueError)']
-INTERPRETER_FLAGS = [[], ['-O'], [], ['-bb']]
+INTERPRETER_FLAGS = [[], ['-O'], ['-X', 'dev'], ['-bb']]
 CONCURRENT = lambda case: case.get('kind') != 'twins' and (True)          # pure functions of their arguments; see vlib/concurrent.py
 SHARDS = {'quick': 4, 'thorough': 16}
 
@@ -649,6 +649,12 @@ def selfcheck(ctx, n):
 # workload
 # ----------------------------------------------------------------------
 
+def REJECTED_FUNCS(ctx):
+    from oslo_utils import versionutils as vu
+    return [vu.is_compatible, vu.convert_version_to_int, vu.convert_version_to_str, vu.convert_version_to_tuple,
+            vu.VersionPredicate]
+
+
 def HAMMER(ctx):
     from oslo_utils import versionutils as vu
     out = []
@@ -749,6 +755,14 @@ def run(ctx):
             continue
         for front in ('1.2.', '7.', ''):
             emit({'kind': 'bad', 'text': front + last, 'cls': 'must-reject'}, 'bad/junk-before-suffix')
+    # incomplete suffixes: the marker without its number, or the number with text after it ("a complete alpha/beta/rc suffix"
+    # is marker + digits at the very end of the last component)
+    for name in SUFFIX_NAMES:
+        for head in ('0', '3', '10', '999'):
+            for front in ('1.2.', '7.', '', '1.2.3.4.'):
+                for tail in ('', 'x', '.', '-', ' ', '1x', '1.', '1 ', '1-1', '_1'):
+                    emit({'kind': 'bad', 'text': front + head + name + tail, 'cls': 'must-reject'}, 'bad/incomplete-suffix')
+                emit({'kind': 'bad', 'text': front + head + name.upper(), 'cls': 'must-reject'}, 'bad/incomplete-suffix')
     for comp in BAD_COMPONENTS:
         for n in range(1, 6):
             for pos in range(n):
